@@ -377,7 +377,9 @@ def order_semantics(fn):
       if e.id in env:
         return env[e.id]
       raise Uninterpreted('name %s' % e.id)
-    if isinstance(e, ast.Attribute) and isinstance(e.value, ast.Name) and e.value.id in spec_names:
+    if isinstance(e, ast.Attribute) and ((isinstance(e.value, ast.Name) and e.value.id in spec_names) or
+                                         (isinstance(e.value, ast.Call) and u(e.value.func) == '_get_cached_arg_spec' and len(e.value.args) == 1
+                                          and u(e.value.args[0]) == params[0])):
       if e.attr == 'args':
         return _Seq([('A', ATOM['A'])], alias=True)
       if e.attr == 'kwonlyargs':
@@ -388,6 +390,15 @@ def order_semantics(fn):
       return ev(e.values[0])
     if isinstance(e, (ast.List, ast.Tuple)) and not e.elts:
       return _Seq([])
+    if isinstance(e, (ast.List, ast.Tuple)) and all(isinstance(x, ast.Starred) for x in e.elts):
+      # [*A, *B]: the concatenation
+      segs = []
+      for x in e.elts:
+        v_ = ev(x.value)
+        if not isinstance(v_, _Seq):
+          raise Uninterpreted(u(e))
+        segs += v_.segs
+      return _Seq(segs)
     if isinstance(e, ast.BinOp) and isinstance(e.op, ast.Add):
       a, b = ev(e.left), ev(e.right)
       if isinstance(a, _Seq) and isinstance(b, _Seq):
